@@ -273,3 +273,7 @@ func HarnessC35Queue() {
 	q.drainAndCheck()
 	verifrt.Reach("end")
 }
+
+// HarnessC35Queue1: the same harness on a single CID, which affords one more producer call in the quick tier
+// (histories such as want-block, want-have, cancel on one CID).
+func HarnessC35Queue1() { HarnessC35Queue() }
